@@ -94,6 +94,15 @@ set_option maxRecDepth 100000 in
 theorem table_cell_flow : ∀ b0 b1 b2 b3 b4 b5 b6 b7 : Bool,
     balancedB (flowList (bits8 b0 b1 b2 b3 b4 b5 b6 b7)) = true := by decide +kernel
 
+/-- in lattice-edge ids, too, no case draws the same directed edge twice -/
+theorem table_case_edges_nodup : ∀ b0 b1 b2 b3 b4 b5 b6 b7 : Bool,
+    decide ((caseSegsRel (caseIndex (bits8 b0 b1 b2 b3 b4 b5 b6 b7))).Nodup) = true := by decide +kernel
+
+/-- a face never carries a segment together with its reverse -/
+theorem table_canon_no_antiparallel :
+    (List.range 3).all (fun a => (List.range 16).all fun k =>
+      (canon a (bits4 k)).all fun e => !((canon a (bits4 k)).contains (swapE e))) = true := by decide +kernel
+
 end Tab
 end C09
 end PolyVerif
